@@ -323,4 +323,6 @@ def load(config="default", **kw):
     if config not in _FB:
         d = _extract.extract(config, **kw)
         _FB[config] = FactBase(d, expected=_extract.CONFIGS.get(config, {}).get("crates"))
+        import inline
+        inline.apply(_FB[config])
     return _FB[config]
